@@ -1410,13 +1410,19 @@ impl ValidationCache {
     ) -> Option<Result<RrsetProof, ProofError>> {
         let (ttl, cached) = self.inner.lock().get_mut(key)?.clone();
 
-        if Instant::now() < ttl {
+        let now = Instant::now();
+        if now < ttl {
             debug!(
                 name = ?context.key.name,
                 record_type = ?context.key.record_type,
                 "returning cached DNSSEC validation",
             );
-            Some(cached)
+            // the authenticated TTL keeps counting down while the verdict sits in the cache
+            let remaining = u32::try_from((ttl - now).as_secs()).unwrap_or(u32::MAX);
+            Some(cached.map(|mut proof| {
+                proof.adjusted_ttl = proof.adjusted_ttl.map(|ttl| ttl.min(remaining));
+                proof
+            }))
         } else {
             debug!(
                 name = ?context.key.name,
